@@ -118,4 +118,46 @@ theorem known_size_unsound_set_insert_counterexample :
   have := h 1 hrun 2 (by decide)
   omega
 
+/-! ### the size of a freshly constructed container (`getInitListSize` / `getContainerSizeFromConstructorArgs`) -/
+
+/-- **a Known size given to `T x(args)` / `T x{args}` is the size the constructor call produces** — for std::string / wstring,
+    vector / deque / list, set, unordered_set, multiset of `int`, any argument values, parentheses and braces (with the
+    initializer_list preference of [over.match.list]) — outside the call forms `ctorExcluded` lists, for which the code as it is
+    states a wrong size (counterexamples below; F02b, F02c, F02f, F02g, F02h). -/
+theorem ctorSize_sound_partial (k : CKind) (braces : Bool) (args : List Arg) (s r : Nat)
+    (hwf : args.all Arg.wf = true) (hex : ctorExcluded k braces args = false)
+    (hs : ctorSize k braces args = some s) (hr : ctorRef k braces args = some r) : s = r :=
+  ctorSize_sound_aux k braces args s r hwf hex hs hr
+
+/-- hypotheses are satisfiable, and the forms around the seeded change: `std::string s(3, 'a')` and `std::string s{3, 'a'}` get no
+    size (the second argument is integral), `std::vector<int> v{3, 0}` gets 2, `std::string s{'a', 'b'}` gets 2 -/
+example :
+    ctorSize .string false [.num false 3 true, .num true 97 true] = none ∧ ctorRef .string false [.num false 3 true, .num true 97 true] = some 3 ∧
+    ctorSize .string true [.num false 3 true, .num true 97 true] = none ∧ ctorRef .string true [.num false 3 true, .num true 97 true] = some 2 ∧
+    ctorSize .seq true [.num false 3 true, .num false 0 true] = some 2 ∧ ctorRef .seq true [.num false 3 true, .num false 0 true] = some 2 ∧
+    ctorSize .string true [.num true 97 true, .num true 98 true] = some 2 ∧
+    ctorExcluded .seq true [.num false 3 true, .num false 0 true] = false ∧
+    ctorSize .string false [.cont 6 6 true, .num false 1 true, .num false 2 true] = some 2 ∧
+    ctorRef .string false [.cont 6 6 true, .num false 1 true, .num false 2 true] = some 2 := by decide
+
+/-- the statement without the exclusions is false of the code as it is; one witness per excluded class:
+    F02b `std::set<int> s{1, 1, 2}` (3 vs 2), F02f `std::set<int> s(v.begin(), v.end())` with a duplicate in `v` (4 vs 3),
+    F02g `std::unordered_set<int> s(16)` (16 vs 0), F02c `std::string u(t, 1, 100)` with `t.size() == 6` (100 vs 5),
+    F02h `std::string s{65}` (65 vs 1) -/
+theorem ctorSize_sound_counterexamples :
+    (ctorSize .set true [.num false 1 true, .num false 1 true, .num false 2 true] = some 3 ∧
+      ctorRef .set true [.num false 1 true, .num false 1 true, .num false 2 true] = some 2) ∧
+    (ctorSize .set false [.itBegin 4 3 true, .itEnd] = some 4 ∧ ctorRef .set false [.itBegin 4 3 true, .itEnd] = some 3) ∧
+    (ctorSize .uset false [.num false 16 true] = some 16 ∧ ctorRef .uset false [.num false 16 true] = some 0) ∧
+    (ctorSize .string false [.cont 6 6 true, .num false 1 true, .num false 100 true] = some 100 ∧
+      ctorRef .string false [.cont 6 6 true, .num false 1 true, .num false 100 true] = some 5) ∧
+    (ctorSize .string true [.num false 65 true] = some 65 ∧ ctorRef .string true [.num false 65 true] = some 1) := by
+  decide
+
+theorem ctorSize_sound_counterexample :
+    ¬ ∀ (k : CKind) (braces : Bool) (args : List Arg) (s r : Nat), args.all Arg.wf = true →
+        ctorSize k braces args = some s → ctorRef k braces args = some r → s = r := by
+  intro h
+  exact absurd (h .uset false [.num false 16 true] 16 0 (by decide) (by decide) (by decide)) (by decide)
+
 end Cppcheck.ContainerSize
